@@ -172,6 +172,33 @@ def gen_cases(ctx, n_per_kind):
                 sc = RC.cast32_scene(sc)
                 sc["gaussian_psf"] = True
                 cases.append(sc)
+    # hybrid against Fourier where the PSF matters most for the real-space components: broad Gaussian PSF, compact flattened high-n source
+    for i in range(max(2, n_per_kind // 3)):
+        N = [64, 65][i % 2]
+        sig = [2.5, 1.7][i % 2]
+        sc = RC.gen_scene(rng, "hybrid", N, RC.gauss_psf(21 if sig > 2 else 15, sig), types=[["sersic", "dev"][i % 2]], mode="single", suffix="", pos_styles=("frac",))
+        p = sc["params"]
+        if "n" in p:
+            p["n"] = [4.0, 5.5][(i // 2) % 2]
+        p["r_eff"], p["ellip"], p["flux"] = float(rng.uniform(1.0, 1.5)), 0.8, float(rng.uniform(50, 500))
+        p["xc"], p["yc"] = float(rng.uniform(N // 2 - 4, N // 2 + 3)), float(rng.uniform(N // 2 - 4, N // 2 + 3))
+        sc = RC.cast32_scene(sc)
+        sc["gaussian_psf"] = True
+        sc["hvf_only"] = True
+        cases.append(sc)
+    # the pixel renderer's point source with a PSF that has no symmetry at all: at an integer centre with an odd stamp nothing is
+    # interpolated, the image is the stamp itself
+    for i in range(max(2, n_per_kind // 3)):
+        N = [48, 49][i % 2]
+        psf = RC.smooth_asym_psf(rng, [11, 9][i % 2])
+        sc = RC.gen_scene(rng, "pixel", N, psf, types=["pointsource"], mode="single", suffix="", pos_styles=("frac",))
+        p = sc["params"]
+        p["flux"] = float(rng.uniform(50, 500))
+        p["xc"], p["yc"] = float(rng.integers(N // 2 - 5, N // 2 + 4)), float(rng.integers(N // 2 - 5, N // 2 + 4))
+        sc = RC.cast32_scene(sc)
+        sc["gaussian_psf"] = False
+        sc["stamp_ref"] = True
+        cases.append(sc)
     # the renderers as a user builds them — no options at all: hybrid against Fourier with whatever defaults each class has
     for i in range(max(3, n_per_kind // 2)):
         N = [48, 64, 49][i % 3]
@@ -214,6 +241,27 @@ def oracle_child(payload):
                 continue
             R = RC.build_renderer(sc)
             img = np.asarray(R.render_source(J, t), dtype=np.float64)
+            if sc.get("hvf_only"):
+                Rf = RC.build_renderer(dict(sc, kind="fourier"))
+                f = np.asarray(Rf.render_source(J, t), dtype=np.float64)
+                d = float(np.abs(img - f).max()) / float(np.abs(f).max())
+                if not d <= 6e-3:
+                    fails.append(("hybrid-vs-fourier", f"hybrid vs Fourier, Gaussian PSF σ = {np.sqrt((np.asarray(sc['psf']) * (np.arange(np.asarray(sc['psf']).shape[0])[:, None] - (np.asarray(sc['psf']).shape[0] - 1) / 2) ** 2).sum() / np.asarray(sc['psf']).sum()):.2f} px, "
+                                                       f"n = {P.get('n', 4.0):.1f}, r_eff = {P['r_eff']:.2f}, ellip = {P['ellip']:.2f}: {d:.2e} of the peak (tolerance 6e-3)"))
+                out.append(dict(fails=fails))
+                continue
+            if sc.get("stamp_ref"):
+                psf = np.asarray(sc["psf"], float)
+                s0, s1 = psf.shape
+                ref = np.zeros((N, N))
+                r0, c0 = int(P["yc"]) - (s0 - 1) // 2, int(P["xc"]) - (s1 - 1) // 2
+                ref[r0:r0 + s0, c0:c0 + s1] = P["flux"] * psf
+                peak, tot = float(ref.max()), float(np.abs(ref).sum())
+                dmax, l1 = float(np.abs(img - ref).max()) / peak, float(np.abs(img - ref).sum()) / tot
+                if not (dmax <= 0.02 and l1 <= 0.02):
+                    fails.append(("vs-truth", f"point source at an integer centre vs the PSF stamp placed there: max|diff| = {dmax:.3%} of the peak, L1 = {l1:.3%} (tolerances 2% / 2%)"))
+                out.append(dict(fails=fails))
+                continue
             if t in ("sersic_pointsource", "pointsource"):
                 # analytic point source (circular Gaussian PSF of known width) + the reference of the Sersic part
                 yy, xx = np.mgrid[:N, :N].astype(float)
